@@ -45,9 +45,10 @@ def mvalue(s):
 def case(draw, tier="quick"):
     d = draw(st.sampled_from([2, 3]))
     ops = O.ops_for(d)
-    op = draw(st.sampled_from(ops))
-    k = draw(st.sampled_from(op.scal))
-    return {"d": d, "op": op.name, "k": k, "v": draw(Z.params()), "factors": [draw(mscale()) for _ in range(4)],
+    v, factors = draw(Z.params()), [draw(mscale()) for _ in range(4)]
+    op = C.uniform_pick(ops, v, factors)
+    k = C.uniform_pick(list(op.scal), factors, v)
+    return {"d": d, "op": op.name, "k": k, "v": v, "factors": factors,
             "cplx": draw(st.sampled_from([None, None, None, [0, 1], [1, 1], [2, -1]]))}
 
 
